@@ -105,12 +105,15 @@ def respond (d : FruDev) (cmd : Nat) (p : List Nat) : FruDev × List Nat :=
   `FaultyDev` is the reference device plus a plan of faults keyed by the index of the request
   (counted from the moment the plan was installed): `cc c` – the request is not processed, the
   whole answer is completion code `c`; `short n` – a Write FRU Data stores and acknowledges only
-  the first `n` data bytes of the request (other commands are served normally).  With an empty
-  plan it is the reference device (`respondF_nofault`). -/
+  the first `n` data bytes of the request (other commands are served normally); `ack n` – a Write
+  FRU Data is processed as by the reference device but its acknowledge says `n` bytes (a count
+  LARGER than what was sent is possible this way; other commands are served normally).  With an
+  empty plan it is the reference device (`respondF_nofault`). -/
 
 inductive Fault where
   | cc (c : Nat)
   | short (n : Nat)
+  | ack (n : Nat)
   deriving Repr, DecidableEq, Inhabited
 
 structure FaultyDev where
@@ -129,6 +132,10 @@ def respondF (s : FaultyDev) (cmd : Nat) (p : List Nat) : FaultyDev × List Nat 
   | some (.short n) =>
     let r := respond s.dev cmd (if cmd = cmdWrite then p.take (3 + n) else p)
     ({ s with dev := r.1, seen := s.seen + 1 }, r.2)
+  | some (.ack n) =>
+    let r := respond s.dev cmd p
+    ({ s with dev := r.1, seen := s.seen + 1 },
+      if cmd = cmdWrite ∧ r.2.length = 2 ∧ r.2.head? = some 0 then [0, n % 256] else r.2)
   | none =>
     let r := respond s.dev cmd p
     ({ s with dev := r.1, seen := s.seen + 1 }, r.2)
